@@ -468,7 +468,15 @@ impl<'a> Ctl<'a> {
                 self.req_ctr += 1;
                 let req = rtref::responder::std_request(v, &crate::inproc::nonce(self.req_ctr, v.nonce_len()));
                 let addr: SocketAddr = format!("127.0.0.1:{}", self.slot.port).parse().unwrap();
+                // the action is complete when the datagram sits in a worker's socket (every thread is
+                // parked, nothing drains the queues): under load the kernel may deliver it a little
+                // after send_to returned
+                let before = crate::proc::udp_rx_queue(self.slot.port);
                 self.slot.clients[c].sock.send_to(&req, addr).map_err(|e| format!("env send: {}", e))?;
+                let t0 = Instant::now();
+                while crate::proc::udp_rx_queue(self.slot.port) <= before && t0.elapsed() < Duration::from_millis(500) {
+                    std::thread::sleep(Duration::from_micros(200));
+                }
                 let tw = self.target_worker(c);
                 match tw {
                     Some(w) => self.wake[w] = true,
@@ -929,6 +937,7 @@ pub fn explore(
     let failed: Mutex<Option<String>> = Mutex::new(None);
     let capped = AtomicU64::new(0);
     let first_trace: Mutex<Option<Vec<String>>> = Mutex::new(None);
+    let divergence_retries = AtomicU64::new(0);
     let need_clients = scn_proto.workers * 24 + 8;
 
     // determinism self-test: the default schedule twice gives the same point sequence
@@ -972,6 +981,7 @@ pub fn explore(
             let failed = &failed;
             let capped = &capped;
             let first_trace = &first_trace;
+            let divergence_retries = &divergence_retries;
             std::thread::Builder::new()
                 .name(format!("sched-{}", t))
                 .spawn_scoped(s, move || {
@@ -1014,7 +1024,20 @@ pub fn explore(
                             in_flight.fetch_sub(1, Relaxed);
                             continue;
                         }
-                        match run_execution(&scn, &slot, &w.prefix, &w.sig) {
+                        // a divergence while replaying a recorded prefix is retried (timing of the
+                        // environment on a loaded machine) and is a hard error when it persists
+                        let mut res = run_execution(&scn, &slot, &w.prefix, &w.sig);
+                        for _ in 0..3 {
+                            match &res {
+                                Err(e) if e.starts_with("replay divergence") => {
+                                    divergence_retries.fetch_add(1, Relaxed);
+                                    std::thread::sleep(Duration::from_millis(50));
+                                    res = run_execution(&scn, &slot, &w.prefix, &w.sig);
+                                }
+                                _ => break,
+                            }
+                        }
+                        match res {
                             Err(e) => {
                                 *failed.lock().unwrap() = Some(e);
                                 in_flight.fetch_sub(1, Relaxed);
@@ -1083,7 +1106,7 @@ pub fn explore(
         sum.caps_hit.push(format!("scenario {}: {} pending schedules dropped at the execution/wall cap ({} executed)", scn_proto.name, capped.load(Relaxed), sum.executions));
     }
     sum.outcome_classes = classes.lock().unwrap().clone();
-    sum.scenarios.push(json!({"scenario": scn_proto.to_json(), "executions": sum.executions, "preemption_bound": max_bound, "completed": capped.load(Relaxed) == 0, "distinct_hook_states": sum.states, "default_schedule": first_trace.lock().unwrap().clone()}));
+    sum.scenarios.push(json!({"scenario": scn_proto.to_json(), "executions": sum.executions, "preemption_bound": max_bound, "completed": capped.load(Relaxed) == 0, "distinct_hook_states": sum.states, "replay_divergences_retried": divergence_retries.load(Relaxed), "default_schedule": first_trace.lock().unwrap().clone()}));
     Ok(sum)
 }
 
